@@ -994,10 +994,11 @@ def r_nonzero(f):
         rets = []
 
         def sinks_(bb, si, node, states, keys):
-            if isinstance(node, dict) and node.get("k") == "assign" and node["p"]["local"] == 0 and not node["p"]["proj"] and node["rv"]["k"] == "use" and node["rv"]["o"]["k"] == "const" and node["rv"]["o"].get("ty") == "bool":
-                val = node["rv"]["o"]["val"] in ("true", "const true")
+            if isinstance(node, dict) and node.get("k") == "assign" and node["p"]["local"] == 0 and not node["p"]["proj"]:
                 for V in states:
-                    rets.append((val, V[gk_c], V[gk_r]))
+                    vals = Z.val_rvalue(node["rv"], V) & {True, False}
+                    for val in (vals or {True, False}):
+                        rets.append((val, V[gk_c], V[gk_r]))
         try:
             Z.run(keys_, [(gk_r, gk_c)], sinks_)
         except RecursionError:
